@@ -163,6 +163,11 @@ class Ctx:
                 if key not in seen:
                     seen.add(key)
                     print('  what: %s' % v['what'])
+            import collections
+            cnt = collections.Counter(json.dumps(v['sig'], sort_keys=True) for v in self.violations)
+            print('distinct violation signatures:')
+            for k, n in cnt.most_common(40):
+                print('  %6d  %s' % (n, k))
             print('%s: %d violation(s) on %s tier' % (self.pid, len(self.violations), self.tier))
             return 1
         print('%s: ok (%s tier, %.1fs)' % (self.pid, self.tier, time.time() - self.t0))
